@@ -18,7 +18,7 @@ txt = ('%d changes under `seeded/<id>/` (`patch.diff`, demonstration, `meta.json
        '`tools/seedtest`, reverted with `git checkout -- .`; round 2: applied to a private copy of the working tree (`tools/seedtest2`, `VERIF_REPO`).\n'
        '%d caught, %d superseded by a repair, %d missed.\n\n'
        '| seed | file | verdict | by which obligation / why not |\n|------|------|---------|------|\n' % (n, hit, sup, n - hit - sup)) + '\n'.join(rows) + \
-      '\n\nEvery miss lies in a function that no unit covers, or in a clause the evidence lists as not decided — which is what "partial" in the claims means.'
+      '\n\nThe misses: C20-2 and C20-3 lie in the two inclusion functions no unit covers (`checkInternal`, `expand`: C01 is not claimed); C14-3 and C16-4 end *undecided* (exit 2, never a pass): the first replaces the loop structure the contracts of `ta_transsym` are attached to, the second needs `processRemove`, whose unit exists but exceeds the verifier\'s memory (11.2).'
 p = V + '/DESIGN.md'; s = open(p).read()
 if 'SEEDTABLE' in s: s = s.replace('SEEDTABLE', '<!-- seedtable:begin -->\n' + txt + '\n<!-- seedtable:end -->')
 else: s = re.sub(r'<!-- seedtable:begin -->.*?<!-- seedtable:end -->', lambda _: '<!-- seedtable:begin -->\n' + txt + '\n<!-- seedtable:end -->', s, flags=re.S)
